@@ -294,7 +294,8 @@ func random(a *hk.Args) error {
 			ov[p] = rng.Intn(3) != 0
 		}
 		backend := []string{"mem", "os"}[rng.Intn(2)]
-		w, err := NewWorld(backend, procs, ov, a.Dir, id)
+		// now and then the directory to lock does not exist yet
+		w, err := NewWorldIn(backend, procs, ov, a.Dir, id, backend == "os" && rng.Intn(5) == 0)
 		if err != nil {
 			return err
 		}
